@@ -1,1 +1,879 @@
-fn main(){}
+//! sched — C18 part 4: concurrent renders on ONE shared `Tera` under a controlled scheduler.
+//!
+//! The subject calls `tera::verif::yield_point(kind)` before every instruction dispatch (0),
+//! between "format into the escape scratch buffer" and "escape it" (1) and before every
+//! output / capture write (2). This binary installs a process-wide hook that turns those calls
+//! into `shuttle::thread::yield_now()` while a harness runs, and lets shuttle's depth-first
+//! scheduler execute EVERY interleaving of the threads at that granularity. Each thread's bytes
+//! must equal what the same call produced sequentially.
+//!
+//! A harness = N thread actions on one `Arc<Tera>` + a kind mask (which hook kinds are scheduling
+//! points) + a per-thread window `[start, start+cap)` of the matching hook calls that yield (the
+//! rest of the render runs without scheduling points). The window bounds the number of
+//! interleavings: 2 threads x 7 yields = C(16,8) = 12 870 schedules.
+//!
+//! Scheduler = shuttle's `DfsScheduler`, wrapped to (a) prune choices that only reorder harness
+//! bookkeeping (the main task is always run first when runnable: it only spawns and joins; a
+//! thread that has finished its render is run to its exit at once), which keeps every
+//! interleaving of the renders and drops ~4x..300x redundant schedules, and (b) record the choices
+//! so that a failing schedule can be printed in shuttle's own replay format.
+//!
+//! Commands (one JSON line per harness on stdout):
+//!   sched --list                      every harness with its tier
+//!   sched --run <name>                explore one harness
+//!   sched --replay <name> <schedule>  re-execute one schedule with shuttle's ReplayScheduler
+//!   sched --selftest                  scheduler machinery checks (branching, pruning, replay encoding)
+//!   sched --profile                   hook points per action (for choosing caps)
+
+use mccore::engine::{self, Out};
+use serde_json::{Value as Json, json};
+use shuttle::scheduler::{DfsScheduler, ReplayScheduler, Schedule, Scheduler, Task, TaskId};
+use std::cell::RefCell;
+use std::collections::HashSet;
+use std::sync::Arc;
+use tera::{Context, Tera};
+
+/// This binary must keep compiling when a change in the subject removes `Send`/`Sync` from one of
+/// its types (that verdict belongs to the `ssprobe` crate). shuttle runs every task of an execution
+/// on the OS thread that called `Runner::run`, so nothing is really sent anywhere.
+struct Trust<T>(T);
+unsafe impl<T> Send for Trust<T> {}
+unsafe impl<T> Sync for Trust<T> {}
+impl<T> std::ops::Deref for Trust<T> {
+    type Target = T;
+    fn deref(&self) -> &T {
+        &self.0
+    }
+}
+
+const MAX_TASKS: usize = 8;
+const STACK: usize = 4 << 20;
+
+// ------------------------------------------------------------------------------------------
+// per-process exploration state. shuttle runs every task of an execution as a coroutine on the
+// OS thread that called `Runner::run`, so a std thread-local is shared by all of them and by the
+// scheduler.
+
+#[derive(Default)]
+struct Exec {
+    /// inside a shuttle execution: hook calls may yield
+    active: bool,
+    mask: u8,
+    cap: usize,
+    start: Vec<usize>,
+    /// hook calls per kind since the last reset (all modes)
+    kind_counts: [u64; 3],
+    /// matching hook calls seen per task
+    seen: [usize; MAX_TASKS],
+    /// yields taken per task
+    taken: [usize; MAX_TASKS],
+    /// task ids in the order in which they arrived at a yield point
+    order: Vec<u8>,
+    /// task ids in the order in which their segments started
+    seg_order: Vec<u8>,
+    /// tasks that finished their action
+    done: [bool; MAX_TASKS],
+    results: Vec<Option<Out>>,
+    bad_task_ids: bool,
+    /// scheduler choices of the current execution
+    steps: Vec<usize>,
+    seed: u64,
+    stop: bool,
+    /// (seed, scheduler choices, yield order) of the last execution that ran to its end
+    last_complete: Option<(u64, Vec<usize>, Vec<u8>)>,
+}
+
+thread_local! {
+    static EXEC: RefCell<Exec> = RefCell::new(Exec::default());
+}
+
+fn with_exec<R>(f: impl FnOnce(&mut Exec) -> R) -> R {
+    EXEC.with(|e| f(&mut e.borrow_mut()))
+}
+
+fn hook(kind: u8) {
+    let me = with_exec(|e| {
+        e.kind_counts[(kind as usize).min(2)] += 1;
+        if !e.active || e.mask & (1 << kind) == 0 {
+            return None;
+        }
+        let me: usize = shuttle::current::me().into();
+        if me == 0 || me >= MAX_TASKS {
+            return None;
+        }
+        let n = e.seen[me];
+        e.seen[me] += 1;
+        let start = e.start.get(me - 1).copied().unwrap_or(0);
+        if n < start || n >= start + e.cap {
+            return None;
+        }
+        e.taken[me] += 1;
+        e.order.push(me as u8);
+        Some(me)
+    });
+    if let Some(me) = me {
+        shuttle::thread::yield_now();
+        with_exec(|e| e.seg_order.push(me as u8));
+    }
+}
+
+// ------------------------------------------------------------------------------------------
+// scheduler wrapper
+
+struct Pruned {
+    inner: DfsScheduler,
+    prune: bool,
+}
+
+impl Scheduler for Pruned {
+    fn new_execution(&mut self) -> Option<Schedule> {
+        // the previous execution is over: its list of choices is complete now
+        let stop = with_exec(|e| {
+            if !e.steps.is_empty() {
+                e.last_complete = Some((e.seed, std::mem::take(&mut e.steps), e.order.clone()));
+            }
+            e.stop
+        });
+        if stop {
+            return None;
+        }
+        let s = self.inner.new_execution()?;
+        with_exec(|e| {
+            e.steps.clear();
+            e.seed = s.seed;
+        });
+        Some(s)
+    }
+
+    fn next_task(&mut self, runnable: &[&Task], current: Option<TaskId>, is_yielding: bool) -> Option<TaskId> {
+        let mut filtered: Vec<&Task> = runnable.to_vec();
+        if self.prune && runnable.len() > 1 {
+            let done = with_exec(|e| e.done);
+            if let Some(t) = runnable.iter().find(|t| usize::from(t.id()) == 0) {
+                filtered = vec![*t];
+            } else if let Some(t) = runnable.iter().find(|t| {
+                let id = usize::from(t.id());
+                id < MAX_TASKS && done[id]
+            }) {
+                filtered = vec![*t];
+            }
+        }
+        let c = self.inner.next_task(&filtered, current, is_yielding)?;
+        with_exec(|e| e.steps.push(usize::from(c)));
+        Some(c)
+    }
+
+    fn next_u64(&mut self) -> u64 {
+        self.inner.next_u64()
+    }
+}
+
+/// shuttle's schedule serialization (shuttle-engine `scheduler::serialization`, format v2):
+/// magic 0x91, varint(task id bit width), varint(number of steps), varint(seed), then per step a
+/// 0 bit followed by the task id, least significant bit first, packed LSB-first into bytes; hex.
+fn encode_schedule(seed: u64, steps: &[usize]) -> String {
+    fn varint(buf: &mut Vec<u8>, mut v: u64) {
+        loop {
+            let cur = (v & 0x7f) as u8;
+            v >>= 7;
+            if v == 0 {
+                buf.push(cur);
+                return;
+            }
+            buf.push(cur | 0x80);
+        }
+    }
+    let max = steps.iter().copied().max().unwrap_or(0);
+    let bits = ((usize::BITS - max.leading_zeros()) as usize).max(1);
+    let mut buf = vec![0x91u8];
+    varint(&mut buf, bits as u64);
+    varint(&mut buf, steps.len() as u64);
+    varint(&mut buf, seed);
+    let nbits = steps.len() * (1 + bits);
+    let mut packed = vec![0u8; nbits.div_ceil(8)];
+    let mut off = 0usize;
+    for &s in steps {
+        off += 1; // the 0 bit: "task id follows"
+        for b in 0..bits {
+            if (s >> b) & 1 == 1 {
+                packed[off / 8] |= 1 << (off % 8);
+            }
+            off += 1;
+        }
+    }
+    buf.extend(packed);
+    buf.iter().map(|b| format!("{b:02x}")).collect()
+}
+
+// ------------------------------------------------------------------------------------------
+// the shared instance, the contexts and the actions
+
+const TEMPLATES: &[(&str, &str)] = &[
+    // escape scratch buffer (autoescape is on for .html)
+    ("esc.html", "{{ a }}{{ b }}"),
+    ("esc3.html", "{{ a }}|{{ o.k }}|{{ b }}"),
+    // capture stack: set block, filter section, nested
+    ("cap.html", "{% set x %}{{ a }}!{% endset %}{{ x }}"),
+    ("capf.html", "{% filter upper %}{{ b }}{% filter trim %} {{ a }} {% endfilter %}{% endfilter %}"),
+    // loop stack
+    ("loop.html", "{% for i in xs %}{{ i }}{% endfor %}"),
+    ("loop2.html", "{% for i in xs %}{% for j in xs %}{{ loop.index }}{{ j }}{% endfor %}{% else %}none{% endfor %}"),
+    // component sub-VM (inline and with body)
+    (
+        "comp.html",
+        "{% component pill(label) %}<i>{{ label }}</i>{% endcomponent pill %}{% component box(t = \"x\") %}[{{ t }}:{{ body }}]{% endcomponent box %}{{ <pill label={a} /> }}",
+    ),
+    ("compb.html", "{% <box t={b}> %}{{ a }}{% </box> %}"),
+    // include (fresh sub-state that points at the parent state)
+    ("inc.html", "[{% include \"esc.html\" %}]"),
+    ("incset.html", "{% set a = b %}{% include \"esc.html\" %}"),
+    // inheritance and super()
+    ("base.html", "<{% block c %}{{ a }}{% endblock %}>"),
+    ("child.html", "{% extends \"base.html\" %}{% block c %}({{ super() }}){% endblock %}"),
+    ("grand.html", "{% extends \"child.html\" %}{% block c %}{{ b }}{{ super() }}{% endblock %}"),
+    // `{}` literal -> the lazily initialised EMPTY_MAP static; shared Arc values of the context
+    ("map.html", "{% set m = {} %}{{ m }}{{ {} | length }}{{ o }}"),
+    ("arc.html", "{{ xs }}{{ [...xs, a] }}{{ {...o, \"z\": b} }}"),
+    // unescaped writes
+    ("plain.txt", "{{ a }}-{{ b }}-{{ xs }}"),
+];
+
+fn build_tera() -> Tera {
+    let mut t = Tera::default();
+    t.add_raw_templates(TEMPLATES.iter().copied()).expect("harness templates must load");
+    t
+}
+
+fn contexts() -> Vec<Context> {
+    let mut out = vec![];
+    for (a, b, xs, k) in [
+        ("<A&A>", "'AAAA'", vec![1i64, 2], "\"ka\""),
+        ("<b>", "&", vec![7i64], "kb<"),
+        ("CCCCCC<", ">c", vec![30i64, 40, 50], ""),
+    ] {
+        let mut c = Context::new();
+        c.insert("a", a);
+        c.insert("b", b);
+        c.insert("xs", &xs);
+        let mut m = std::collections::BTreeMap::new();
+        m.insert("k", k);
+        c.insert("o", &m);
+        out.push(c);
+    }
+    out
+}
+
+#[derive(Clone, Debug)]
+enum Api {
+    Render(&'static str),
+    RenderTo(&'static str),
+    Block(&'static str, &'static str),
+    Str(&'static str, bool),
+    Component(&'static str, Option<&'static str>, bool),
+}
+
+#[derive(Clone, Debug)]
+struct Action {
+    api: Api,
+    ctx: usize,
+}
+
+impl Action {
+    fn show(&self) -> String {
+        let src = |n: &str| TEMPLATES.iter().find(|t| t.0 == n).map(|t| t.1).unwrap_or("");
+        match &self.api {
+            Api::Render(n) => format!("render({n:?} = {:?}, ctx{})", src(n), self.ctx),
+            Api::RenderTo(n) => format!("render_to({n:?} = {:?}, ctx{})", src(n), self.ctx),
+            Api::Block(n, b) => format!("render_block({n:?} = {:?}, {b:?}, ctx{})", src(n), self.ctx),
+            Api::Str(s, ae) => format!("render_str({s:?}, ctx{}, autoescape={ae})", self.ctx),
+            Api::Component(c, body, ae) => {
+                format!("render_component({c:?}, ctx{}, body={body:?}, autoescape={ae})", self.ctx)
+            }
+        }
+    }
+}
+
+fn perform(tera: &Tera, ctxs: &[Context], a: &Action) -> Out {
+    let ctx = &ctxs[a.ctx];
+    match &a.api {
+        Api::Render(n) => engine::to_out(engine::guarded(|| tera.render(n, ctx))),
+        Api::RenderTo(n) => engine::to_out(engine::guarded(|| {
+            let mut buf = Vec::new();
+            tera.render_to(n, ctx, &mut buf)?;
+            Ok(String::from_utf8_lossy(&buf).into_owned())
+        })),
+        Api::Block(n, b) => engine::to_out(engine::guarded(|| tera.render_block(n, b, ctx))),
+        Api::Str(s, ae) => engine::to_out(engine::guarded(|| tera.render_str(s, ctx, *ae))),
+        Api::Component(c, body, ae) => {
+            let mut cctx = Context::new();
+            if *c == "pill" {
+                cctx.insert_value("label", ctx.get("a").cloned().unwrap());
+            } else {
+                cctx.insert_value("t", ctx.get("b").cloned().unwrap());
+            }
+            engine::to_out(engine::guarded(|| tera.render_component(c, &cctx, *body, *ae)))
+        }
+    }
+}
+
+struct Spec {
+    name: String,
+    tier: &'static str,
+    resource: &'static str,
+    threads: Vec<Action>,
+    mask: u8,
+    cap: usize,
+    start: Vec<usize>,
+}
+
+fn act(api: Api, ctx: usize) -> Action {
+    Action { api, ctx }
+}
+
+/// (label, resource touched, actions)
+fn groups() -> Vec<(&'static str, &'static str, Vec<Action>)> {
+    use Api::*;
+    vec![
+        ("esc-same", "escape scratch buffer; the same template on both threads", vec![act(Render("esc.html"), 0), act(Render("esc.html"), 1)]),
+        ("esc-mixed", "escape scratch buffer vs attribute path and text writes", vec![act(Render("esc3.html"), 0), act(RenderTo("esc.html"), 2)]),
+        ("capture", "capture stack (set block) vs nested filter sections", vec![act(Render("cap.html"), 0), act(Render("capf.html"), 1)]),
+        ("capture-same", "capture stack, same template", vec![act(Render("cap.html"), 1), act(Render("cap.html"), 2)]),
+        ("loop", "loop stack and loop locals", vec![act(Render("loop.html"), 0), act(Render("loop.html"), 1)]),
+        ("loop-nested", "nested loop stack vs single loop", vec![act(Render("loop2.html"), 1), act(Render("loop.html"), 2)]),
+        ("component", "component sub-VM, inline and with body", vec![act(Render("comp.html"), 0), act(Render("compb.html"), 1)]),
+        ("component-api", "render_component (own state) vs inline component of the same definition", vec![act(Component("pill", None, true), 1), act(Render("comp.html"), 0)]),
+        ("include", "include sub-state", vec![act(Render("inc.html"), 0), act(Render("incset.html"), 1)]),
+        ("super", "block lineage and super() nested interpreter", vec![act(Render("child.html"), 0), act(Render("grand.html"), 1)]),
+        ("block-api", "render_block (block buffer) vs full render of the same child", vec![act(Block("child.html", "c"), 1), act(Render("child.html"), 0)]),
+        ("empty-map", "`{}` literal -> EMPTY_MAP static, shared context Arcs", vec![act(Render("map.html"), 0), act(Render("map.html"), 1)]),
+        ("arc-spread", "spread of shared Arc<Vec>/Arc<Map> context values (Arc::make_mut paths)", vec![act(Render("arc.html"), 0), act(Render("arc.html"), 0)]),
+        ("one-off", "render_str compiles a template at run time on the shared instance", vec![act(Str("{{ a | upper }}{{ b }}", true), 0), act(Render("esc.html"), 1)]),
+        ("same-ctx", "same template AND same context object on both threads", vec![act(Render("esc3.html"), 0), act(Render("esc3.html"), 0)]),
+        ("plain", "unescaped writes of shared values", vec![act(Render("plain.txt"), 0), act(RenderTo("plain.txt"), 2)]),
+        // three threads
+        ("3-esc", "escape scratch buffer, three threads", vec![act(Render("esc.html"), 0), act(Render("esc.html"), 1), act(Render("esc.html"), 2)]),
+        ("3-mixed", "capture + loop + escape", vec![act(Render("cap.html"), 0), act(Render("loop.html"), 1), act(Render("esc3.html"), 2)]),
+        ("3-sub", "component + include + super()", vec![act(Render("comp.html"), 0), act(Render("inc.html"), 1), act(Render("child.html"), 2)]),
+    ]
+}
+
+const MASK_ALL: u8 = 0b111;
+const MASK_IO: u8 = 0b110; // escape window + writes
+
+fn mask_name(m: u8) -> &'static str {
+    match m {
+        MASK_ALL => "all",
+        MASK_IO => "esc+write",
+        _ => "?",
+    }
+}
+
+/// Sequential profile of an action: (result, matching hook calls per kind).
+fn profile(tera: &Tera, ctxs: &[Context], a: &Action) -> (Out, [u64; 3]) {
+    with_exec(|e| {
+        e.active = false;
+        e.kind_counts = [0; 3];
+    });
+    let out = perform(tera, ctxs, a);
+    (out, with_exec(|e| e.kind_counts))
+}
+
+fn points(counts: &[u64; 3], mask: u8) -> usize {
+    (0..3).filter(|k| mask & (1 << k) != 0).map(|k| counts[k] as usize).sum()
+}
+
+fn specs() -> Vec<Spec> {
+    let tera = build_tera();
+    let ctxs = contexts();
+    let mut out = vec![];
+    for (label, resource, threads) in groups() {
+        let n = threads.len();
+        let counts: Vec<[u64; 3]> = threads.iter().map(|a| profile(&tera, &ctxs, a).1).collect();
+        for mask in [MASK_IO, MASK_ALL] {
+            let pts: Vec<usize> = counts.iter().map(|c| points(c, mask)).collect();
+            let (qcap, tcap) = if n == 2 { (7, 10) } else { (3, 4) };
+            let mut push = |tier: &'static str, cap: usize, start: Vec<usize>| {
+                let name = format!(
+                    "{label}/{}/{}x{}/w{}",
+                    mask_name(mask),
+                    n,
+                    cap,
+                    start.iter().map(|s| s.to_string()).collect::<Vec<_>>().join("-")
+                );
+                out.push(Spec { name, tier, resource, threads: threads.clone(), mask, cap, start });
+            };
+            // window at the start of every render
+            push("quick", qcap, vec![0; n]);
+            // deeper window, only where it adds schedules
+            if pts.iter().any(|&p| p > qcap) {
+                push("thorough", tcap, vec![0; n]);
+            }
+            // sliding windows over the rest of the renders (stride = cap), every combination
+            let wins: Vec<Vec<usize>> = pts
+                .iter()
+                .map(|&p| (0..p.max(1)).step_by(qcap).collect::<Vec<_>>())
+                .collect();
+            let total: usize = wins.iter().map(|w| w.len()).product();
+            for idx in 1..total {
+                let mut r = idx;
+                let mut start = vec![];
+                for w in &wins {
+                    start.push(w[r % w.len()]);
+                    r /= w.len();
+                }
+                push("thorough", qcap, start);
+            }
+        }
+    }
+    out
+}
+
+// ------------------------------------------------------------------------------------------
+// exploration
+
+#[derive(Default)]
+struct Totals {
+    schedules: u64,
+    steps: u64,
+    orders: HashSet<u128>,
+    seg_orders: HashSet<u128>,
+    yields_min: Vec<usize>,
+    yields_max: Vec<usize>,
+    failure: Option<Json>,
+}
+
+fn pack(order: &[u8]) -> u128 {
+    // 3 bits per step behind a sentinel bit: exact for up to 42 steps
+    let mut v: u128 = 1;
+    for &t in order.iter().take(42) {
+        v = (v << 3) | (t as u128 & 7);
+    }
+    v
+}
+
+fn order_string(order: &[u8]) -> String {
+    order.iter().map(|t| char::from(b'0' + *t)).collect()
+}
+
+fn multinomial(ys: &[usize]) -> u128 {
+    let mut r: u128 = 1;
+    let mut n = 0u128;
+    for &y in ys {
+        for i in 1..=y as u128 {
+            n += 1;
+            r = r * n / i;
+        }
+    }
+    r
+}
+
+fn config() -> shuttle::Config {
+    let mut c = shuttle::Config::new();
+    c.stack_size = STACK;
+    c.failure_persistence = shuttle::FailurePersistence::None;
+    c.silence_warnings = true;
+    c
+}
+
+struct Prepared {
+    tera: Arc<Trust<Tera>>,
+    ctxs: Arc<Trust<Vec<Context>>>,
+    threads: Arc<Vec<Action>>,
+    expected: Arc<Vec<Out>>,
+    counts: Vec<[u64; 3]>,
+}
+
+fn prepare(spec: &Spec) -> Prepared {
+    let tera = Arc::new(Trust(build_tera()));
+    let ctxs = Arc::new(Trust(contexts()));
+    let mut expected = vec![];
+    let mut counts = vec![];
+    for a in &spec.threads {
+        let (o, c) = profile(&tera, &ctxs, a);
+        expected.push(o);
+        counts.push(c);
+    }
+    Prepared { tera, ctxs, threads: Arc::new(spec.threads.clone()), expected: Arc::new(expected), counts }
+}
+
+/// The body of one shuttle execution. Returns through the `EXEC` / `TOTALS` thread-locals.
+fn execution_body(
+    p: &Prepared,
+    mask: u8,
+    cap: usize,
+    start: &[usize],
+    totals: &Arc<std::sync::Mutex<Totals>>,
+    track_segments: bool,
+) {
+    let n = p.threads.len();
+    with_exec(|e| {
+        e.active = true;
+        e.mask = mask;
+        e.cap = cap;
+        e.start = start.to_vec();
+        e.seen = [0; MAX_TASKS];
+        e.taken = [0; MAX_TASKS];
+        e.order.clear();
+        e.seg_order.clear();
+        e.done = [false; MAX_TASKS];
+        e.results = vec![None; n];
+        e.bad_task_ids = false;
+    });
+    let handles: Vec<_> = (0..n)
+        .map(|i| {
+            let tera = p.tera.clone();
+            let ctxs = p.ctxs.clone();
+            let threads = p.threads.clone();
+            shuttle::thread::spawn(move || {
+                let me: usize = shuttle::current::me().into();
+                with_exec(|e| {
+                    if me != i + 1 {
+                        e.bad_task_ids = true;
+                    }
+                    e.seg_order.push(me as u8);
+                });
+                let out = perform(&tera, &ctxs, &threads[i]);
+                with_exec(|e| {
+                    e.results[i] = Some(out);
+                    if me < MAX_TASKS {
+                        e.done[me] = true;
+                    }
+                });
+            })
+        })
+        .collect();
+    for h in handles {
+        let _ = h.join();
+    }
+    // judge
+    let (results, order, seg_order, taken, bad) = with_exec(|e| {
+        e.active = false;
+        (
+            std::mem::take(&mut e.results),
+            e.order.clone(),
+            e.seg_order.clone(),
+            e.taken,
+            e.bad_task_ids,
+        )
+    });
+    let mut t = totals.lock().unwrap();
+    t.schedules += 1;
+    t.steps += order.len() as u64;
+    t.orders.insert(pack(&order));
+    if track_segments {
+        t.seg_orders.insert(pack(&seg_order));
+    }
+    if t.yields_min.is_empty() {
+        t.yields_min = taken[1..=n].to_vec();
+        t.yields_max = taken[1..=n].to_vec();
+    }
+    for i in 0..n {
+        t.yields_min[i] = t.yields_min[i].min(taken[i + 1]);
+        t.yields_max[i] = t.yields_max[i].max(taken[i + 1]);
+    }
+    if t.failure.is_some() {
+        return;
+    }
+    if bad {
+        t.failure = Some(json!({"machinery": "shuttle task ids are not 1..=n in spawn order"}));
+        with_exec(|e| e.stop = true);
+        return;
+    }
+    for i in 0..n {
+        let got = results[i].clone().unwrap_or(Out::Panic("thread produced no result".into()));
+        // same bytes, or both errors of the same kind (messages may list names in HashMap order)
+        let same = match (&got, &p.expected[i]) {
+            (Out::Ok(x), Out::Ok(y)) => x == y,
+            (Out::Err(k1, _), Out::Err(k2, _)) => k1 == k2,
+            _ => false,
+        };
+        if !same {
+            // the schedule string is added by `explore` once the execution is over and the list
+            // of scheduler choices is complete
+            t.failure = Some(json!({
+                "thread": i,
+                "action": p.threads[i].show(),
+                "expected": p.expected[i].show(),
+                "observed": got.show(),
+                "class": if got.is_panic() { "panic" } else if got.is_err() { "err" } else { "bytes" },
+                "yield_order": order_string(&order),
+            }));
+            with_exec(|e| e.stop = true);
+            return;
+        }
+    }
+}
+
+fn explore(spec: &Spec, prune: bool) -> Json {
+    let p = prepare(spec);
+    let totals = Arc::new(std::sync::Mutex::new(Totals::default()));
+    with_exec(|e| {
+        e.stop = false;
+        e.steps.clear();
+        e.last_complete = None;
+    });
+    let pts: Vec<usize> = p.counts.iter().map(|c| points(c, spec.mask)).collect();
+    let track_segments = spec.cap <= 8;
+    let t0 = std::time::Instant::now();
+    let res = {
+        let totals = totals.clone();
+        let (mask, cap, start) = (spec.mask, spec.cap, spec.start.clone());
+        let p = Arc::new(p);
+        let p2 = p.clone();
+        let r = engine::guarded(move || {
+            let runner = shuttle::Runner::new(Pruned { inner: DfsScheduler::new(None, false), prune }, config());
+            runner.run(move || execution_body(&p2, mask, cap, &start, &totals, track_segments))
+        });
+        (r, p)
+    };
+    let (run_result, p) = res;
+    with_exec(|e| e.active = false);
+    let t = totals.lock().unwrap();
+    let planned: Vec<usize> = pts
+        .iter()
+        .zip(&spec.start)
+        .map(|(&p, &s)| p.saturating_sub(s).min(spec.cap))
+        .collect();
+    let covers = pts.iter().zip(&spec.start).all(|(&p, &s)| s == 0 && p <= spec.cap);
+    let mut failure = t.failure.clone();
+    if let Some(f) = failure.as_mut().and_then(|f| f.as_object_mut())
+        && let Some((seed, steps, _)) = with_exec(|e| e.last_complete.clone())
+    {
+        f.insert("schedule".into(), json!(encode_schedule(seed, &steps)));
+        f.insert("schedule_steps".into(), json!(steps.len()));
+    }
+    if let Err(panic) = &run_result
+        && failure.is_none()
+    {
+        // a panic that unwound through shuttle itself: the choices made so far lead to it
+        let (steps, seed) = with_exec(|e| (e.steps.clone(), e.seed));
+        failure = Some(json!({
+            "class": "scheduler-panic",
+            "observed": format!("the exploration itself panicked: {panic}"),
+            "schedule": encode_schedule(seed, &steps),
+            "schedule_steps": steps.len(),
+        }));
+    }
+    let stable = t.yields_min == t.yields_max;
+    let orders_expected = if stable { multinomial(&t.yields_max) } else { 0 };
+    json!({
+        "name": spec.name,
+        "tier": spec.tier,
+        "resource": spec.resource,
+        "threads": spec.threads.iter().map(|a| a.show()).collect::<Vec<_>>(),
+        "sequential": p.expected.iter().map(|o| o.show()).collect::<Vec<_>>(),
+        "mask": mask_name(spec.mask),
+        "cap": spec.cap,
+        "start": spec.start,
+        "points": pts,
+        "yields_planned": planned,
+        "yields_taken": t.yields_max,
+        "yields_stable": stable,
+        "covers_whole_render": covers,
+        "pruned": prune,
+        "schedules": t.schedules,
+        "orders": t.orders.len(),
+        "orders_expected": orders_expected.to_string(),
+        "segment_orders": if track_segments { json!(t.seg_orders.len()) } else { Json::Null },
+        "steps": t.steps,
+        "ok": failure.is_none(),
+        "failure": failure,
+        "ms": t0.elapsed().as_millis() as u64,
+    })
+}
+
+fn replay(spec: &Spec, schedule: &str) -> Json {
+    let p = Arc::new(prepare(spec));
+    let totals = Arc::new(std::sync::Mutex::new(Totals::default()));
+    with_exec(|e| e.stop = false);
+    let res = {
+        let totals = totals.clone();
+        let (mask, cap, start) = (spec.mask, spec.cap, spec.start.clone());
+        let p2 = p.clone();
+        let schedule = schedule.to_string();
+        engine::guarded(move || {
+            // exactly what `shuttle::replay` does, with our stack size
+            let runner = shuttle::Runner::new(ReplayScheduler::new_from_encoded(&schedule), config());
+            runner.run(move || execution_body(&p2, mask, cap, &start, &totals, false))
+        })
+    };
+    with_exec(|e| e.active = false);
+    let t = totals.lock().unwrap();
+    let failure = t.failure.clone();
+    json!({
+        "name": spec.name,
+        "replay": true,
+        "schedules": t.schedules,
+        "ok": failure.is_none() && res.is_ok(),
+        "failure": failure,
+        "replay_error": res.err(),
+    })
+}
+
+// ------------------------------------------------------------------------------------------
+// self-test of the scheduler machinery
+
+fn selftest() -> Json {
+    let mut problems: Vec<String> = vec![];
+    // (1) check_dfs branches at yield_now: 2 threads x 3 yields -> C(6,3) = 20 arrival orders
+    let orders: Arc<std::sync::Mutex<HashSet<Vec<u8>>>> = Arc::new(std::sync::Mutex::new(HashSet::new()));
+    let plain_schedules = {
+        let orders = orders.clone();
+        let runner = shuttle::Runner::new(DfsScheduler::new(None, false), config());
+        runner.run(move || {
+            with_exec(|e| e.order.clear());
+            let hs: Vec<_> = (0..2)
+                .map(|_| {
+                    shuttle::thread::spawn(|| {
+                        for _ in 0..3 {
+                            let me: usize = shuttle::current::me().into();
+                            with_exec(|e| e.order.push(me as u8));
+                            shuttle::thread::yield_now();
+                        }
+                    })
+                })
+                .collect();
+            for h in hs {
+                h.join().unwrap();
+            }
+            let o = with_exec(|e| e.order.clone());
+            orders.lock().unwrap().insert(o);
+        })
+    };
+    let n_orders = orders.lock().unwrap().len();
+    if n_orders != 20 {
+        problems.push(format!("2 threads x 3 yields gave {n_orders} orders, expected 20"));
+    }
+    // (2) pruning keeps every interleaving: same set of orders with and without it on a real pair
+    let small = Spec {
+        name: "selftest/esc-same/all/2x3".into(),
+        tier: "quick",
+        resource: "",
+        threads: groups()[0].2.clone(),
+        mask: MASK_ALL,
+        cap: 3,
+        start: vec![0, 0],
+    };
+    let a = explore(&small, true);
+    let b = explore(&small, false);
+    if a["orders"] != b["orders"] || a["orders"].as_u64() != Some(20) {
+        problems.push(format!("pruned orders {} vs unpruned {} (expected 20)", a["orders"], b["orders"]));
+    }
+    if a["segment_orders"] != b["segment_orders"] || a["segment_orders"].as_u64() != Some(70) {
+        problems.push(format!(
+            "pruned segment orders {} vs unpruned {} (expected C(8,4) = 70)",
+            a["segment_orders"], b["segment_orders"]
+        ));
+    }
+    if a["schedules"] != a["segment_orders"] {
+        problems.push(format!("pruned DFS ran {} schedules for {} segment orders", a["schedules"], a["segment_orders"]));
+    }
+    if a["ok"] != json!(true) || b["ok"] != json!(true) {
+        problems.push(format!("self-test pair failed: {} / {}", a["failure"], b["failure"]));
+    }
+    // (3) the schedule encoding is accepted by shuttle's ReplayScheduler and reproduces the order:
+    // record the last schedule of a pruned run and replay it
+    let recorded = {
+        let p = Arc::new(prepare(&small));
+        let totals = Arc::new(std::sync::Mutex::new(Totals::default()));
+        with_exec(|e| {
+            e.stop = false;
+            e.steps.clear();
+            e.last_complete = None;
+        });
+        let runner = shuttle::Runner::new(Pruned { inner: DfsScheduler::new(Some(37), false), prune: true }, config());
+        runner.run(move || execution_body(&p, MASK_ALL, 3, &[0, 0], &totals, false));
+        let (seed, steps, order) = with_exec(|e| e.last_complete.clone()).unwrap_or_default();
+        (encode_schedule(seed, &steps), order)
+    };
+    let replayed_order = {
+        let p = Arc::new(prepare(&small));
+        let totals = Arc::new(std::sync::Mutex::new(Totals::default()));
+        let seen: Arc<std::sync::Mutex<Vec<u8>>> = Arc::new(std::sync::Mutex::new(vec![]));
+        let seen2 = seen.clone();
+        let sched = recorded.0.clone();
+        let r = engine::guarded(move || {
+            let runner = shuttle::Runner::new(ReplayScheduler::new_from_encoded(&sched), config());
+            runner.run(move || {
+                execution_body(&p, MASK_ALL, 3, &[0, 0], &totals, false);
+                *seen2.lock().unwrap() = with_exec(|e| e.order.clone());
+            })
+        });
+        if let Err(e) = r {
+            problems.push(format!("replay of an encoded schedule panicked: {e}"));
+        }
+        let g = seen.lock().unwrap().clone();
+        g
+    };
+    if replayed_order != recorded.1 || recorded.1.len() != 6 {
+        problems.push(format!(
+            "replay of schedule {} observed order {} instead of {}",
+            recorded.0,
+            order_string(&replayed_order),
+            order_string(&recorded.1)
+        ));
+    }
+    json!({
+        "name": "selftest",
+        "ok": problems.is_empty(),
+        "problems": problems,
+        "plain_dfs_2x3_schedules": plain_schedules,
+        "plain_dfs_2x3_orders": n_orders,
+        "pruned_2x3": {"schedules": a["schedules"], "orders": a["orders"], "segment_orders": a["segment_orders"]},
+        "unpruned_2x3": {"schedules": b["schedules"], "orders": b["orders"], "segment_orders": b["segment_orders"]},
+        "replayed_schedule": recorded.0,
+        "replayed_order": order_string(&replayed_order),
+    })
+}
+
+fn main() {
+    engine::init_silent_panics();
+    if !tera::verif::set_yield_hook(hook) {
+        eprintln!("MACHINERY: could not install the yield hook");
+        std::process::exit(2);
+    }
+    let args: Vec<String> = std::env::args().collect();
+    let cmd = args.get(1).map(|s| s.as_str()).unwrap_or("");
+    match cmd {
+        "--list" => {
+            for s in specs() {
+                println!(
+                    "{}",
+                    json!({
+                        "name": s.name, "tier": s.tier, "resource": s.resource,
+                        "threads": s.threads.iter().map(|a| a.show()).collect::<Vec<_>>(),
+                        "mask": mask_name(s.mask), "cap": s.cap, "start": s.start,
+                    })
+                );
+            }
+        }
+        "--run" | "--run-unpruned" | "--replay" => {
+            let name = args.get(2).cloned().unwrap_or_default();
+            let Some(spec) = specs().into_iter().find(|s| s.name == name) else {
+                eprintln!("MACHINERY: no harness named {name:?}");
+                std::process::exit(2);
+            };
+            let out = if cmd == "--replay" {
+                replay(&spec, args.get(3).map(|s| s.as_str()).unwrap_or(""))
+            } else {
+                explore(&spec, cmd == "--run")
+            };
+            println!("{out}");
+        }
+        "--selftest" => println!("{}", selftest()),
+        "--profile" => {
+            let tera = build_tera();
+            let ctxs = contexts();
+            for (label, _, threads) in groups() {
+                for a in &threads {
+                    let (o, c) = profile(&tera, &ctxs, a);
+                    println!("{label:<14} {:?} kinds(instr,esc,write)={:?} {}", o.show(), c, a.show());
+                }
+            }
+        }
+        _ => {
+            eprintln!("usage: sched --list | --run <name> | --replay <name> <schedule> | --selftest | --profile");
+            std::process::exit(2);
+        }
+    }
+}
